@@ -13,6 +13,13 @@ OptimizeTransitions / OptimizeWeights on pools 1..8, every returned observable);
 theorem re-checked on access lists generated from the Go closures by /verif/go2coq_c17
 (Sites_gen.v, regenerated on every run; private Coq tree under ctx.dir when vlib.REPO != /repo);
 SAGA partition and estimate tied (sagacases_*.v); matrixEstimator and NumericEstimator driven.
+Round 3 (class "per-thread clones that are not deep"): composite models (HMM / mixtures whose emissions are
+mixtures or transformed densities) in the cross-pool, race and hunt streams - batch evaluation bitwise equal to
+direct sequential LogPdf calls (site comp), whole estimations (full kinds hmm-smix, mix-smix, hmm-logt,
+hmm-transl); a structural deep-copy freshness check of every Clone* method of the distribution packages
+(go/parser inventory + reflective storage walk, harness --extra fresh); the write-set model extended by the
+scratch cells of the distribution objects (ModelScratch / ProofsScratch) and the scratch pass of go2coq_c17
+(Scratch_gen.v: receiver fields written by the evaluation methods x how Clone() produces them).
 Supporting evidence (labelled so): a -race build of the same harness under a deadline.
 """
 import glob, json, os, shutil
@@ -20,7 +27,8 @@ import vlib
 
 TARGETS = ["Base/Corr.vo", "C17/Model.vo", "C17/Spec.vo", "C17/Sites.vo", "C17/Carriers.vo", "C17/ProofsMerge.vo",
            "C17/ProofsChunks.vo", "C17/ProofsErr.vo", "C17/ProofsSites.vo", "C17/Corr.vo", "C17/ModelCfg.vo", "C17/ProofsCfg.vo",
-           "C17/CorrCfg.vo", "C17/SitesGenDefs.vo", "C17/Sites_gen.vo", "C17/ProofsSitesGen.vo", "C17/Props.vo"]
+           "C17/CorrCfg.vo", "C17/SitesGenDefs.vo", "C17/Sites_gen.vo", "C17/ProofsSitesGen.vo",
+           "C17/ModelScratch.vo", "C17/ScratchGenDefs.vo", "C17/Scratch_gen.vo", "C17/ProofsScratch.vo", "C17/Props.vo"]
 PROPS = ["C17/Props.v"]
 PARTIAL = ("Scheduling model, not a thread model: the theorems are about coq/C17/Model.v and ModelCfg.v (per-thread accumulators, lazy init "
            "flags, the merge loops per configuration of the optional accumulators, AddRangeJob's chunk arithmetic, the error slot). Actual "
@@ -37,19 +45,27 @@ PARTIAL = ("Scheduling model, not a thread model: the theorems are about coq/C17
            "estimate is compared bit for bit with the same partition executed sequentially (up to 6 attempts because of F-SAGA-THETA-RACE). "
            "The Baum-Welch configuration without transitions panics (F-BW-NOTRANS-NILDEREF) and is driven on the pool of one thread only. "
            "matrixEstimator / vectorEstimator mixtures and HMMs, ShapeHmm and the NumericEstimator parameters are compared across pools "
-           "(1e-9, NumericEstimator 1e-6), not recomputed by the model.")
+           "(1e-9, NumericEstimator 1e-6), not recomputed by the model. Round 3: freshness of per-thread clones is a hypothesis of the scratch-cell "
+           "theorem (fresh_clones_give_disjoint_write_sets) and is decided for the library in two independent ways, neither a proof about Go: "
+           "statically on the source (Scratch_gen.v: fields WRITTEN DIRECTLY by an evaluation method x how Clone() initialises them; children such as "
+           "Edist[i] cloned in a loop are not classified) and reflectively on run-time objects built by harness/c17/fresh.go (one nested instance per "
+           "type with a Clone* method; every pointer / slice / map storage reachable from both original and clone is reported; the constraint lists "
+           "of ChmmTransitionMatrix and the tree of HhmmTransitionMatrix are shared but written only by their constructors - documented immutable). "
+           "Composite models: batch evaluation compared bitwise with direct sequential LogPdf calls; composite estimations across pools at 1e-9; "
+           "HMMs over vector mixtures cannot be estimated at all (F-VMIX-SETPARAMS-RECURSION) and are not driven.")
 
 SITE_OF = {"em-opt": "statistics/generic/mixture_em.go EmStep (option matrix)", "bw-opt": "statistics/generic/hmm_baumWelch.go BaumWelchStep (option matrix)",
            "saga": "statistics/vectorEstimator/logisticRegression.go sagaLogisticRegressionL1", "numeric": "statistics/scalarEstimator/numeric.go Estimate",
            "em": "statistics/generic/mixture_em.go EmStep", "bw": "statistics/generic/hmm_baumWelch.go BaumWelchStep",
            "normal": "statistics/scalarEstimator/normal.go Estimate/updateEstimate", "xpool": "scalar/vector estimators Estimate",
            "chunks": "threadpool AddRangeJob", "bw-err": "BaumWelchStep error path", "em-err": "EmStep error path",
-           "x": "scalar/vector estimators Estimate", "full": "vectorEstimator.HmmEstimator / scalarEstimator.MixtureEstimator"}
+           "x": "scalar/vector estimators Estimate", "full": "vectorEstimator.HmmEstimator / scalarEstimator.MixtureEstimator",
+           "comp": "XxxStdDataSet.EvaluateLogPdf on composite emissions (per-thread clones of stateful distributions)"}
 
 
 # ---------------------------------------------------------------- access lists derived from the Go source
 
-def private_tree(ctx, gen_text):
+def private_tree(ctx, gen_text, scratch_text=None):
     """REPO is redirected and its job closures differ from the committed Sites_gen.v: compile Base + C17 with the
     regenerated file in a private tree under ctx.dir (the shared coq/ tree is left alone)."""
     root = os.path.join(ctx.dir, "coq")
@@ -58,6 +74,8 @@ def private_tree(ctx, gen_text):
         for f in glob.glob(os.path.join(vlib.ROOT, "coq", d, "*.v")):
             shutil.copy(f, os.path.join(root, d, os.path.basename(f)))
     open(os.path.join(root, "C17", "Sites_gen.v"), "w").write(gen_text)
+    if scratch_text is not None:
+        open(os.path.join(root, "C17", "Scratch_gen.v"), "w").write(scratch_text)
     return root
 
 
@@ -69,24 +87,35 @@ def translate(ctx):
         return [{"target": "go2coq_c17 build", "lemma": None, "errors": [tlog[-1500:]]}]
     gen = os.path.join(ctx.dir, "Sites_gen.v")
     rep = os.path.join(ctx.dir, "sites_gen_report.json")
-    rc, out = vlib.sh([tool, "-repo", vlib.REPO, "-out", gen, "-report", rep], timeout=120, env=vlib.go_env())
-    if rc != 0 or not os.path.exists(gen) or not os.path.exists(rep):
+    sgen = os.path.join(ctx.dir, "Scratch_gen.v")
+    rc, out = vlib.sh([tool, "-repo", vlib.REPO, "-out", gen, "-scratch", sgen, "-report", rep], timeout=120, env=vlib.go_env())
+    if rc != 0 or not os.path.exists(gen) or not os.path.exists(rep) or not os.path.exists(sgen):
         ctx.oblige(1, 0)
         return [{"target": "go2coq_c17 run", "lemma": None, "errors": [out[-1500:]]}]
     report = json.load(open(rep))
     ctx.cov["access_lists"] = {"closures": report.get("closures"), "accesses": report.get("accesses"), "tool": "go2coq_c17 (go/parser + go/ast)"}
     ctx.oblige(1, 1 if report.get("ok") else 0)
     new = open(gen).read()
+    snew = open(sgen).read()
     committed_path = os.path.join(vlib.ROOT, "coq", "C17", "Sites_gen.v")
+    scommitted_path = os.path.join(vlib.ROOT, "coq", "C17", "Scratch_gen.v")
     committed = open(committed_path).read() if os.path.exists(committed_path) else ""
+    scommitted = open(scommitted_path).read() if os.path.exists(scommitted_path) else ""
     ctx.cov["access_lists"]["changed"] = new != committed
-    if new != committed:
+    ctx.cov["access_lists"]["scratch_methods"] = report.get("scratch_methods")
+    ctx.cov["access_lists"]["clone_fields"] = len(report.get("clone_fields") or [])
+    ctx.cov["access_lists"]["clone_fields_not_fresh"] = [c for c in (report.get("clone_fields") or []) if not c.get("Fresh")]
+    ctx.cov["access_lists"]["scratch_changed"] = snew != scommitted
+    if new != committed or snew != scommitted:
         if os.path.abspath(vlib.REPO) == "/repo":
-            open(committed_path, "w").write(new)
-            ctx.log("Sites_gen.v regenerated from %s differs from the previous one: the write-set theorem is re-checked against it" % vlib.REPO)
+            if new != committed:
+                open(committed_path, "w").write(new)
+            if snew != scommitted:
+                open(scommitted_path, "w").write(snew)
+            ctx.log("Sites_gen.v / Scratch_gen.v regenerated from %s differ from the previous ones: the write-set theorems are re-checked against them" % vlib.REPO)
         else:
-            vlib.COQ = private_tree(ctx, new)
-            ctx.log("Sites_gen.v regenerated from %s differs: proofs re-checked in private tree %s" % (vlib.REPO, vlib.COQ))
+            vlib.COQ = private_tree(ctx, new, snew)
+            ctx.log("Sites_gen.v / Scratch_gen.v regenerated from %s differ: proofs re-checked in private tree %s" % (vlib.REPO, vlib.COQ))
     return [] if report.get("ok") else [{"target": "go2coq_c17 (no job closure found or parse errors)", "lemma": None,
                                         "errors": [json.dumps(report.get("parse_errors"))[:1500]]}]
 
@@ -98,6 +127,78 @@ def write_set_offenders(ctx):
                           "Eval vm_compute in (flat_map gsite_offenders gen_sites).\nEval vm_compute in (coverage_ok gen_sites).\n")
     rc, out = vlib.coqc_file(path, timeout=300)
     return " ".join(out.split())[-1500:]
+
+
+def scratch_offenders(ctx):
+    """Fields written by an evaluation method that Clone() does not allocate afresh / unowned expanded writes (printed by Coq)."""
+    path = os.path.join(ctx.dir, "Offenders_C17_scratch.v")
+    open(path, "w").write("From Coq Require Import List String Bool.\nFrom ADV Require Import C17.SitesGenDefs C17.Sites_gen C17.ScratchGenDefs C17.Scratch_gen.\n"
+                          "Eval vm_compute in (scratch_offenders gen_scratch gen_clone_fields).\n"
+                          "Eval vm_compute in (flat_map gsite_offenders (map (expand_site gen_scratch) gen_sites)).\n"
+                          "Eval vm_compute in (follows_generic_mixture gen_scratch).\n")
+    rc, out = vlib.coqc_file(path, timeout=300)
+    return " ".join(out.split())[-2500:]
+
+
+F_VMIX_RECURSION = {
+    "id": "F-VMIX-SETPARAMS-RECURSION", "property": "C17",
+    "site": "statistics/vectorDistribution/mixture.go:108 and statistics/matrixDistribution/mixture.go:108 (*Mixture).SetParameters",
+    "what": "SetParameters starts with `obj.SetParameters(parameters.Slice(0,n))` - an unconditional call of itself: infinite recursion, "
+            "fatal stack overflow (not recoverable) whenever a vector / matrix mixture is an emission of an HMM or a component of a mixture "
+            "that is being estimated (Emissions calls Edist[c].SetParameters), sequentially and on every pool; the composite kind mhmm-vmix is "
+            "therefore not driven",
+}
+
+
+def vmix_recursion_present():
+    hits = []
+    for pkg in ("vectorDistribution", "matrixDistribution"):
+        p = os.path.join(vlib.REPO, "statistics", pkg, "mixture.go")
+        try:
+            src = open(p).read()
+        except OSError:
+            continue
+        i = src.find("func (obj *Mixture) SetParameters(")
+        if i >= 0:
+            body = src[i: src.find("\n}\n", i)]
+            if "\n  obj.SetParameters(parameters.Slice(0,n))" in body:
+                hits.append(pkg)
+    return hits
+
+
+def fresh_stage(ctx, binary):
+    """Structural deep-copy freshness of every Clone* method of the distribution packages (no race needed)."""
+    env = vlib.go_env()
+    env["C17_REPO"] = vlib.REPO
+    rc, out = vlib.sh([binary, "--extra", "fresh", "--out", ctx.dir], timeout=300, env=env)
+    p = os.path.join(ctx.dir, "fresh.json")
+    if rc != 0 or not os.path.exists(p):
+        ctx.oblige(1, 0)
+        return [{"what": "the freshness check did not run", "log": out[-1500:], "input": False}]
+    r = json.load(open(p))
+    ctx.cov["clone_freshness"] = {"clone_methods_in_source": r.get("inventory"), "checked": r.get("checked"),
+                                  "storage_objects_walked": r.get("storage_objects_walked"), "shared_mutable": r.get("shared_total"),
+                                  "shared_immutable_documented": sorted(set("%s %s" % (x["type"], x["kind"].split("[immutable: ")[-1].rstrip("]"))
+                                                                            for x in (r.get("shared_immutable") or []))),
+                                  "ignored": r.get("ignored")}
+    fails = []
+    for u in r.get("uncovered") or []:
+        fails.append({"what": "Clone method %s.%s.%s (%s) has no instance in harness/c17/fresh.go: a new cloneable type is not checked" % (
+            u["pkg"], u["type"], u["method"], u["pos"]), "input": False})
+    for pr in r.get("problems") or []:
+        fails.append({"what": "freshness check could not call a Clone method: " + pr, "input": False})
+    for pe in r.get("parse_errors") or []:
+        fails.append({"what": "freshness inventory: " + pe, "input": False})
+    sh = r.get("shared") or []
+    if sh:
+        fails.append({"what": "%s.%s() at %s is not a deep copy: %s reachable from the clone as %s is the SAME object as %s of the original "
+                              "(%d shared objects over all Clone methods): per-thread clones share mutable state" % (
+                                  sh[0]["type"], sh[0]["method"], sh[0]["pos"], sh[0]["kind"], sh[0]["path_clone"], sh[0]["path_original"],
+                                  r.get("shared_total")), "input": True, "shared": sh[:10]})
+    ctx.oblige(1, 0 if fails else 1)
+    ctx.log("clone freshness: %s Clone methods in the source, %s checked, %s shared mutable objects, %d documented immutable" % (
+        r.get("inventory"), r.get("checked"), r.get("shared_total"), len(r.get("shared_immutable") or [])))
+    return fails
 
 
 def shards_of(ctx, stem):
@@ -356,6 +457,7 @@ def tp_probe(ctx, binary):
 
 def run(ctx):
     ctx.cov["trusted_base"] = vlib.TRUSTED_BASE_COMMON + [
+        "go2coq_c17 scratch pass (~350 lines, go/ast): trusted to list the receiver fields an evaluation method writes (assignments, non-read-only method calls on the field or a local alias, destination-argument convention) and to classify how Clone() produces them (call = fresh / copy); the reflective freshness check of harness/c17/fresh.go decides the same question on run-time objects independently",
         "go2coq_c17 (~600 lines of Go, go/parser + go/ast, no type checker): trusted to list the assignments and method calls of the job closures and of the same-package callees it follows; accesses through function values, interface methods and arguments written by a callee are not followed",
         "the threadpool package github.com/pbenner/threadpool (outside the library): assumed to execute every queued job exactly once; its AddRangeJob chunking is probed and compared with the model",
         "Coq-Interval (interval tactic) for the certified log-add comparisons",
@@ -368,6 +470,12 @@ def run(ctx):
     ok, failures = vlib.proof_stage(ctx, TARGETS, PROPS)
     failures = tfail + failures
     ok = ok and not tfail
+    if any(f["target"] in ("C17/ProofsScratch.vo", "C17/Scratch_gen.vo") for f in failures):
+        off = scratch_offenders(ctx)
+        for f in failures:
+            if f["target"] in ("C17/ProofsScratch.vo", "C17/Scratch_gen.vo"):
+                f["errors"] = (f.get("errors") or []) + [{"rejected_scratch": off}]
+        ctx.log("scratch-cell theorem fails on the generated lists: " + off[:800])
     if any(f["target"] == "C17/ProofsSitesGen.vo" for f in failures):
         off = write_set_offenders(ctx)
         for f in failures:
@@ -384,6 +492,10 @@ def run(ctx):
         return
     quick = ctx.tier == "quick"
     bad, broken = corr(ctx, binary, 60 if quick else 500, os.path.join(vlib.ROOT, "corpus/C17/corpus.jsonl"))
+    ffails = fresh_stage(ctx, binary)
+    hits = vmix_recursion_present()
+    if hits:
+        ctx.known_finding(F_VMIX_RECURSION["id"], F_VMIX_RECURSION["what"] + " - present in " + ", ".join(hits))
     rfails = race_stage(ctx, 1500 if quick else 15000)
     probed = tp_probe(ctx, binary)
     ntp = (ctx.cov.get("extra") or {}).get("bw_no_transitions_panics") or {}
@@ -413,14 +525,14 @@ def run(ctx):
     rfails = kept
     # the hunt: property-level oracle on the implementation over many schedules
     h = None
-    if bad or rfails or not ok:
+    if bad or rfails or not ok or ffails:
         seeds = list(bad)
         for f in rfails:
             if f.get("config"):
                 c = f["config"]
                 seeds.append({"site": c.get("site"), "pool": f.get("pool", {"k": 4}), "em": c.get("em"), "bw": c.get("bw"),
                               "normal": c.get("normal"), "x": c.get("x"), "full": c.get("full"), "saga": c.get("saga"),
-                              "numeric": c.get("numeric")})
+                              "numeric": c.get("numeric"), "comp": c.get("comp")})
         h = hunt(ctx, binary, seeds, 300 if quick else 3000)
     else:
         h = hunt(ctx, binary, [], 150 if quick else 1500)
@@ -436,6 +548,9 @@ def run(ctx):
                        "broken": [f["target"] for f in failures] + (["correspondence C17.Corr.check"] if bad else [])},
                       True, "parallel run differs from the sequential run: " + h["failure"][:300])
         return
+    for f in ffails:
+        ctx.violation({"obligation": "deep-copy freshness of per-thread clones (harness --extra fresh)", "fresh": True,
+                       "shared": f.get("shared")}, bool(f.get("input")), f["what"][:900])
     for f in failures:
         ctx.violation({"obligation": f["target"], "lemma": f["lemma"], "errors": f["errors"]}, False,
                       "proof obligation no longer checks: %s %s" % (f["target"], f["lemma"] or ""))
@@ -465,6 +580,10 @@ def replay(ctx, path):
     if binary is None:
         print(blog)
         return 2
+    if rp.get("fresh"):
+        ff = fresh_stage(ctx, binary)
+        print("deep-copy freshness of the Clone methods: %s" % ("; ".join(f["what"][:400] for f in ff) if ff else "holds"))
+        return 1 if ff else 0
     if "config" not in rp and "case" not in rp:
         print("replay names a broken obligation, not an input: %s" % rp.get("obligation"))
         ok, failures = vlib.proof_stage(ctx, TARGETS, PROPS)
